@@ -251,13 +251,18 @@ func roleUses(p *Prog) []roleUse {
 						}
 					case *ssa.Call:
 						g := t.Call.StaticCallee()
-						if g == nil || !isTokenPredicate(p, g) {
+						if g == nil {
 							continue
 						}
+						pred := isTokenPredicate(p, g)
 						for _, e := range sums[g] {
 							switch {
 							case e.role != "":
-								add(roleSumEntry{role: e.role, param: -1, in: in})
+								// a constant test inside a predicate is the caller's test; inside any other
+								// function it is that function's own
+								if pred {
+									add(roleSumEntry{role: e.role, param: -1, in: in})
+								}
 							case e.param < len(t.Call.Args):
 								if c, ok := t.Call.Args[e.param].(*ssa.Const); ok && c.Value != nil {
 									add(roleSumEntry{role: c.Value.ExactString(), param: -1, in: in})
